@@ -90,7 +90,11 @@ def check_split(cx: Cx, ob: Ob) -> None:
         if m == "partition":
             if P[2] != (sep,):
                 ob.violate(fn.qualname, where(fn, line), f"partition called with `{show(P[2][0]) if P[2] else ''}`, not the `sep` parameter", detail="sep-arg")
-            if a != ("item", P, ("const", 0)) or b != ("item", P, ("const", 2)):
+            head = ("item", P, ("const", 0))
+            lens = lambda x: ("call", ("builtin", "len"), (x,), ())  # noqa: E731
+            # the tail spelled as a slice: everything after the head and the separator (only where the separator was found)
+            tail_slices = [("slice", curie, ("bin", "+", lens(head), lens(sep)), ("const", None), ("const", None)), ("slice", curie, ("bin", "+", lens(sep), lens(head)), ("const", None), ("const", None))]
+            if a != head or not (b == ("item", P, ("const", 2)) or b in tail_slices):
                 ob.violate(fn.qualname, where(fn, line), f"_split returns `{show(t)[:70]}`; expected (head, tail) = partition(sep)[0], [2] unchanged", detail="parts")
         elif m == "split":
             ms = P[2][1] if len(P[2]) > 1 else dict(P[3]).get("maxsplit")
@@ -150,6 +154,12 @@ def check_split(cx: Cx, ob: Ob) -> None:
             if op(c) == "cmp" and c[2] == fnd and ((c[1], c[3]) in ((">=", ("const", 0)), (">", ("const", -1)))) and pol is False:
                 good = True
             if op(c) == "item" and is_const(c[2], 1) and callee_name(c[1]) == "partition" and pol is False:
+                good = True
+            # the middle part of partition is the separator itself or '' (an empty separator raises before): != sep, == ''
+            mid = lambda x: op(x) == "item" and is_const(x[2], 1) and callee_name(x[1]) == "partition" and x[1][2] == (sep,)  # noqa: E731
+            if op(c) == "cmp" and c[1] == "==" and ((mid(c[2]) and c[3] == sep) or (mid(c[3]) and c[2] == sep)) and pol is False:
+                good = True
+            if op(c) == "cmp" and c[1] == "==" and ((mid(c[2]) and is_const(c[3], "")) or (mid(c[3]) and is_const(c[2], ""))) and pol is True:
                 good = True
             if op(c) == "cmp" and c[1] in ("not in", "in") and c[2] == sep and c[3] == curie and ((c[1] == "not in") == pol):
                 good = True
@@ -465,19 +475,45 @@ def check_expand_pair_all(cx: Cx, ob: Ob) -> None:
 
 
 def check_get_record(cx: Cx, ob: Ob) -> None:
+    from ..rules import formula_atoms, formula_eval, truth_table
+    import itertools
+
     fn = cx.fn(f"{CONV}.get_record", ob.id)
     s = cx.summary(fn, ob.id)
     me = ("param", fn.self_name)
     prov = Prov(s)
     probe = ("param", "prefix")
     ok = False
+
+    def judge(line, rec, atoms, rows):
+        """rows: (assignment, returns-the-record?) - the record must be returned exactly when one of its CURIE-side names equals the probe."""
+        cover = {a: cmp_cover(prov, a, probe) for a in atoms}
+        if any(r == "?" for c in cover.values() for r, _ in c):
+            ob.undecide("get_record compares against an unrecognised term")
+        names = {a: {f for r, f in c if r == rec and f in CURIE_SIDE} for a, c in cover.items()}
+        extra_f = {a: {f for r, f in c if r != "?" and not (r == rec and f in CURIE_SIDE)} for a, c in cover.items()}
+        bad_fields, extra = set(), set()
+        for asg, returned in rows:
+            true_names = set().union(*[names[a] for a in atoms if asg[a]]) if atoms else set()
+            if true_names and not returned:
+                bad_fields |= true_names if len(true_names) == 1 else set()
+            if not true_names and returned:
+                extra |= set().union(*[extra_f[a] or {"?"} for a in atoms if asg[a]]) if any(asg[a] for a in atoms) else {"unconditional"}
+        # a field is missed when some assignment in which only it matches does not return the record
+        missing = (CURIE_SIDE - set().union(*names.values())) | bad_fields if atoms else set(CURIE_SIDE)
+        if missing:
+            ob.violate(fn.qualname, where(fn, line), f"get_record does not match on {sorted(missing)}", witness="expand_pair_all(<synonym>, x) finds no record", detail="cover:" + "+".join(sorted(missing)))
+        if extra:
+            ob.violate(fn.qualname, where(fn, line), f"get_record also matches on {sorted(map(str, extra))}", detail="cover-extra")
+
+    seen_loops = set()
     for t, ctx in s.returns():
         if is_const(t, None):
             continue
         line = ctx.path.out[2]
-        ob.site(f"{where(fn, line)} {fn.qualname}", f"return {show(t)[:40]}")
         if op(t) == "call" and t[1] == ("builtin", "next") and t[2] and op(t[2][0]) == "comp" and len(t[2][0][3]) == 1:
             # next((r for r in self.records if <match>), None): first match in record order
+            ob.site(f"{where(fn, line)} {fn.qualname}", f"return {show(t)[:40]}")
             comp = t[2][0]
             tgt, it, ifs = comp[3][0]
             prov.add_binding(tgt, it)
@@ -486,36 +522,35 @@ def check_get_record(cx: Cx, ob: Ob) -> None:
                 continue
             if len(t[2]) < 2 or not is_const(t[2][1], None):
                 ob.violate(fn.qualname, where(fn, line), "get_record raises StopIteration for unknown prefixes instead of returning None", detail="no-default")
-            cover = set()
-            for c in ifs:
-                cover |= cmp_cover(prov, c, probe)
-            fields = {f for r, f in cover if r == tgt}
+            formula = ("and", tuple(ifs)) if len(ifs) != 1 else ifs[0]
+            atoms = formula_atoms(formula) if ifs else []
+            rows = []
+            for vals in itertools.product((True, False), repeat=len(atoms)):
+                asg = dict(zip(atoms, vals))
+                rows.append((asg, formula_eval(formula, asg) if ifs else True))
             ok = True
-            if any(r == "?" for r, _ in cover):
-                ob.undecide("get_record compares against an unrecognised term")
-            missing = CURIE_SIDE - fields
-            if missing:
-                ob.violate(fn.qualname, where(fn, line), f"get_record does not match on {sorted(missing)}", witness="expand_pair_all(<synonym>, x) finds no record", detail="cover:" + "+".join(sorted(missing)))
-            if fields - CURIE_SIDE:
-                ob.violate(fn.qualname, where(fn, line), f"get_record also matches on {sorted(fields - CURIE_SIDE)}", detail="cover-extra")
+            judge(line, tgt, atoms, rows)
             continue
         if not ctx.loops or ctx.loops[-1].b != ("attr", me, "records"):
             ob.undecide("get_record does not scan self.records")
             continue
-        cover = set()
-        for g in ctx.guards:
-            if g.kind == "guard" and g.b is True:
-                cover |= cmp_cover(prov, g.a, probe)
-        fields = {f for r, f in cover if r == t}
+        loop = ctx.loops[-1]
+        if id(loop) in seen_loops:
+            continue
+        seen_loops.add(id(loop))
+        ob.site(f"{where(fn, line)} {fn.qualname}", f"return {show(t)[:40]}")
+        atoms, rows0 = truth_table(loop.body)
+        if rows0 is None:
+            ob.undecide("get_record: too many distinct tests in the scan")
+            continue
+        rows = []
+        for asg, hit in rows0:
+            outs = {("ret" if (q.out is not None and q.out[0] == "return" and q.out[1] == t) else "other" if (q.out is not None and q.out[0] in ("return", "raise")) else "next") for q in hit}
+            if "other" in outs:
+                ob.undecide("get_record: the scan leaves the function with something other than the record")
+            rows.append((asg, outs == {"ret"}))
         ok = True
-        if any(r == "?" for r, _ in cover):
-            ob.undecide("get_record compares against an unrecognised term")
-        missing = CURIE_SIDE - fields
-        if missing:
-            ob.violate(fn.qualname, where(fn, line), f"get_record does not match on {sorted(missing)}", witness="expand_pair_all(<synonym>, x) finds no record", detail="cover:" + "+".join(sorted(missing)))
-        extra = fields - CURIE_SIDE
-        if extra:
-            ob.violate(fn.qualname, where(fn, line), f"get_record also matches on {sorted(extra)}", detail="cover-extra")
+        judge(line, t, atoms, rows)
     if not ok:
         ob.undecide("get_record has no record return")
 
